@@ -15,9 +15,12 @@ PRIMS = [None, 0, 1, -2.5, '', 'txt', [], {}, [1, [2, [3]]], {'k': {'k': [None, 
 
 
 def gen_triple(r, thorough):
-    kind = r.choice(['ret', 'ret', 'echo', 'echo', 'arith', 'build', 'build', 'raise', 'raise', 'mutate'])
+    kind = r.choice(['ret', 'ret', 'echo', 'echo', 'arith', 'build', 'build', 'raise', 'raise', 'mutate', 'slow'])
     kwargs = {}
-    if kind == 'ret':
+    if kind == 'slow':
+        # a result / exception that takes a while to rebuild on the receiving side
+        t, args = 'ret_slow', [r.randint(1, 99), r.choice([0.3, 0.8]), r.random() < 0.3]
+    elif kind == 'ret':
         t, args = 'ret_value', [r.choice(PRIMS)]
     elif kind == 'echo':
         t = 'echo'
@@ -41,7 +44,7 @@ def gen_triple(r, thorough):
         t = 'mutate'
         args = [[1, 2], {'a': 1}]
     return dict(target=t, args=args, kwargs=kwargs, via=r.choice(['ctor', 'ctor', 'create']), run=r.choice([None, None, None, True]),
-                tuple_args=r.random() < 0.3)
+                tuple_args=r.random() < 0.3, wait_mode=r.choice(['plain', 'plain', 'polled']))
 
 
 def case(spec, log):
@@ -100,6 +103,17 @@ def case(spec, log):
                     continue
                 if not runs:
                     o['dead_at_once'] = (w.is_alive() is False)
+                if tr.get('wait_mode') == 'polled':
+                    # the polling idiom first (timed waits mixed with is_alive()), then the wait() the property speaks about
+                    import time
+                    t0 = time.monotonic()
+                    while time.monotonic() - t0 < 30:
+                        p1 = bounded('pollwait:%s:%d' % (kind, ti), lambda: w.wait(0.05), 20)
+                        if p1 is not False:
+                            break
+                        p2 = bounded('pollalive:%s:%d' % (kind, ti), lambda: w.is_alive(), 20)
+                        if p2 is not True:
+                            break
                 d = bounded('wait:%s:%d' % (kind, ti), lambda: w.wait(None), 45)
                 if d is HANG:
                     o['wait'] = 'hang'
@@ -153,7 +167,7 @@ def run(tier):
     thorough = tier == 'thorough'
     chk = Check('C02', 'exploration', tier,
                 'seeded triples over targets (identity, echo with positional/keyword shapes, arithmetic, container/bytes builders up to 4 MiB crossing the 64 KiB pipe buffer, raising variants with arguments, argument-mutating) '
-                'x {constructor, Worker.create} x run {None, True, False} x target None x tuple/list args x {importable module, main script}; each run on thread, process and remote workers and compared with the direct call; '
+                'x {constructor, Worker.create} x run {None, True, False} x target None x tuple/list args x {wait(None), timed-wait/is_alive polling then wait(None)} x results slow to rebuild on the receiving side x {importable module, main script}; each run on thread, process and remote workers and compared with the direct call; '
                 'distinct non-trivial = distinct (target, argument shape, size class, outcome class, construction)')
     r = rng('c02')
     n = 600 if thorough else 180
@@ -164,7 +178,9 @@ def run(tier):
                 dict(target='ret_value', args=[5], kwargs={}, via='create', run=False),
                 dict(target='build', args=['bytes', 65536], kwargs={}, via='ctor', run=None), dict(target='build', args=['bytes', 1 << 20], kwargs={}, via='ctor', run=None),
                 dict(target='build', args=['list', 70000], kwargs={}, via='create', run=None), dict(target='ret_value', args=[0], kwargs={}, via='ctor', run=None),
-                dict(target='ret_value', args=[None], kwargs={}, via='ctor', run=None), dict(target='ret_value', args=[''], kwargs={}, via='create', run=None)]
+                dict(target='ret_value', args=[None], kwargs={}, via='ctor', run=None), dict(target='ret_value', args=[''], kwargs={}, via='create', run=None),
+                dict(target='ret_slow', args=[7, 0.8, False], kwargs={}, via='ctor', run=None, wait_mode='polled'), dict(target='ret_slow', args=[8, 0.8, True], kwargs={}, via='create', run=None, wait_mode='polled'),
+                dict(target='build', args=['bytes', 4 << 20], kwargs={}, via='ctor', run=None, wait_mode='polled'), dict(target='ret_value', args=[None], kwargs={}, via='ctor', run=None, wait_mode='polled')]
     main_triples = [dict(target='main:main_ret', args=[4], kwargs={}, via='ctor', run=None), dict(target='main:main_raise', args=[4], kwargs={}, via='ctor', run=None),
                     dict(target='main:main_plain', args=[4], kwargs={}, via='create', run=None), dict(target='main:main_ret', args=[[1, 2]], kwargs={}, via='create', run=None)]
     wd = workdir('c02')
@@ -186,7 +202,7 @@ def run(tier):
             tr = b[rec['i']]
             where = 'main-script' if script else 'module'
             outcome = rec['ref'].split(':')[0]
-            chk.case((tr['target'], len(tr['args']), sorted(tr['kwargs']), size_class(tr), outcome, tr.get('via'), tr.get('run'), tr.get('tuple_args'), where, rec['ref'][:40]))
+            chk.case((tr['target'], len(tr['args']), sorted(tr['kwargs']), size_class(tr), outcome, tr.get('via'), tr.get('run'), tr.get('tuple_args'), tr.get('wait_mode'), where, rec['ref'][:40]))
             chk.count('triples')
             chk.count('reference_' + outcome)
             for kind, o in rec['kinds'].items():
